@@ -1,12 +1,20 @@
 import Pyrtma.Proofs.Manager
 import Pyrtma.Proofs.ManagerOrder
 import Pyrtma.Spec.Manager
+import Pyrtma.Proofs.ManagerSimRun
 /-!
 # C14 — undeliverable messages are reported, not silently lost
 
 Theorems about one iteration of `forward_message`'s recipient loop (`deliverOne`), about the failure branch shared by
 `forward_message`, `send_to_loggers` and `send_ack` (`trySend`) and about `send_failed_message` (`failedMsg`), for every
 state, frame, writable set, set of failing sockets and every nested forward `fwd`.
+
+Refinement link, partial (the counted lower bounds of `checkData` / `checkDepartures` and `checkNoticeOrigin` are not
+linked): `spec_guard_clause_passes_on_model` (no notice about a notice, every history) and
+`logger_waited_clause_passes_partial` — the clause `Spec.checkLoggerWaited` ("a logger module is waited for instead of being
+skipped") adds no entry on the events of any frame the model reads in a state the Spec's abstract state simulates
+(`Inv`, which holds after every history: `spec_invariant_after_any_history`, and at every frame inside a round:
+`Proofs/ManagerSimRun.lean: readAll_go`).
 -/
 namespace Pyrtma.C14
 open Pyrtma.Mgr
@@ -137,5 +145,26 @@ def exState : State :=
 def exFrame : Frame := { mtype := 5000, src := 10, dest := 0, destHost := 0, nbytes := 4, body := .data 7 }
 example : (forward {} 9 exState exFrame).out = [.send 3 1 (failedFrame {} 11 exFrame)] := by decide
 example : inGuard {} 8 = true ∧ inGuard {} 42 = true ∧ inGuard {} 5000 = false ∧ inGuard {} 46 = false := by decide
+
+/-! ### The Spec's "a logger is waited for" clause on the model (partial link) -/
+
+/-- after any well-formed history the Spec's abstract state and the model's state are in the relation the frame-by-frame
+    theorems start from -/
+theorem spec_invariant_after_any_history (cfg : Cfg) (ok : CfgOK cfg) (hfuel : cfg.fuel = 0) (hperm : OrdPerm cfg)
+    (hmt : cfg.mtClosed ≠ cfg.allTypes) (rs : List Round) (hwf : RoundsWF rs) :
+    Inv cfg ((List.zip rs (modelRounds cfg (init cfg) rs)).foldl (fun a p => Spec.round cfg a p.1 p.2) {}) (run cfg rs) :=
+  (rounds_ok ok hfuel hperm hmt rs {} (init cfg) (init_sim ok hfuel hmt (ordOK_of_perm hperm)) hwf).1
+
+/-- **PARTIAL (one clause of C14).**  The model reads a frame from connection `rd.uid` in a state `s` that the abstract
+state `a` simulates (`Inv`), handles it, possibly followed by the periodic section (`q`); `evs` are the events after the
+`rd` marker.  Then `Spec.checkLoggerWaited` — evaluated by `Spec.roundBody` on exactly these arguments, on a state `X`
+with the table and failure environment of `a` — reports nothing: every logger that subscribes to the type of a data frame
+(in range, not the ALL sentinel) and whose connection works gets its copy also when it was not writable.  Not linked:
+the other C14 clauses (see the header). -/
+theorem logger_waited_clause_passes_partial (cfg : Cfg) (ok : CfgOK cfg) (hfuel : cfg.fuel = 0) (hperm : OrdPerm cfg)
+    {a : Spec.A} {s : State} (inv : Inv cfg a s) (rd : Read) (hu0 : rd.uid ≠ 0) (m : Module) (hm : s.find rd.uid = some m)
+    (s2 : State) (q : QuietTo cfg (readOne cfg s rd) s2) (evs : List Ev) (he : s2.out = s.out ++ Ev.rd rd.uid :: evs)
+    (X : Spec.A) (hXm : X.mods = a.mods) (hXf : X.fail = a.fail) : Spec.checkLoggerWaited cfg X rd evs = X :=
+  loggerWaited_ok ok hfuel hperm inv rd hu0 m hm s2 q evs he X hXm hXf
 
 end Pyrtma.C14
